@@ -1,4 +1,9 @@
 
+(** val xorb : bool -> bool -> bool **)
+
+let xorb b1 b2 =
+  if b1 then if b2 then false else true else b2
+
 (** val negb : bool -> bool **)
 
 let negb = function
@@ -110,6 +115,11 @@ type positive =
 type n =
 | N0
 | Npos of positive
+
+(** val eqb0 : bool -> bool -> bool **)
+
+let eqb0 b1 b2 =
+  if b1 then b2 else if b2 then false else true
 
 module Nat =
  struct
@@ -453,6 +463,24 @@ module Coq_Pos =
              | XO _ -> N0
              | _ -> Npos XH)
 
+  (** val ldiff : positive -> positive -> n **)
+
+  let rec ldiff p q =
+    match p with
+    | XI p0 ->
+      (match q with
+       | XI q0 -> coq_Ndouble (ldiff p0 q0)
+       | XO q0 -> coq_Nsucc_double (ldiff p0 q0)
+       | XH -> Npos (XO p0))
+    | XO p0 ->
+      (match q with
+       | XI q0 -> coq_Ndouble (ldiff p0 q0)
+       | XO q0 -> coq_Ndouble (ldiff p0 q0)
+       | XH -> Npos p)
+    | XH -> (match q with
+             | XO _ -> Npos XH
+             | _ -> N0)
+
   (** val coq_lxor : positive -> positive -> n **)
 
   let rec coq_lxor p q =
@@ -495,10 +523,10 @@ module Coq_Pos =
 
   (** val iter_op : ('a1 -> 'a1 -> 'a1) -> positive -> 'a1 -> 'a1 **)
 
-  let rec iter_op op p a =
+  let rec iter_op op0 p a =
     match p with
-    | XI p0 -> op a (iter_op op p0 (op a a))
-    | XO p0 -> iter_op op p0 (op a a)
+    | XI p0 -> op0 a (iter_op op0 p0 (op0 a a))
+    | XO p0 -> iter_op op0 p0 (op0 a a)
     | XH -> a
 
   (** val to_nat : positive -> nat **)
@@ -526,6 +554,18 @@ module N =
   let double = function
   | N0 -> N0
   | Npos p -> Npos (XO p)
+
+  (** val succ : n -> n **)
+
+  let succ = function
+  | N0 -> Npos XH
+  | Npos p -> Npos (Coq_Pos.succ p)
+
+  (** val pred : n -> n **)
+
+  let pred = function
+  | N0 -> N0
+  | Npos p -> Coq_Pos.pred_N p
 
   (** val succ_pos : n -> positive **)
 
@@ -693,6 +733,15 @@ module N =
                  | N0 -> N0
                  | Npos q -> Coq_Pos.coq_land p q)
 
+  (** val ldiff : n -> n -> n **)
+
+  let ldiff n0 m =
+    match n0 with
+    | N0 -> N0
+    | Npos p -> (match m with
+                 | N0 -> n0
+                 | Npos q -> Coq_Pos.ldiff p q)
+
   (** val coq_lxor : n -> n -> n **)
 
   let coq_lxor n0 m =
@@ -733,6 +782,11 @@ module N =
   let of_nat = function
   | O -> N0
   | S n' -> Npos (Coq_Pos.of_succ_nat n')
+
+  (** val ones : n -> n **)
+
+  let ones n0 =
+    pred (shiftl (Npos XH) n0)
  end
 
 (** val hd : 'a1 -> 'a1 list -> 'a1 **)
@@ -10986,6 +11040,14 @@ let enc p t0 c t1 =
   fold_left (fun acc i -> vxor acc (nth (N.to_nat i) c (repeat N0 t0)))
     (enc_indices0 p t1) (repeat N0 t0)
 
+(** val append : positive -> positive -> positive **)
+
+let rec append i j =
+  match i with
+  | XI ii -> XI (append ii j)
+  | XO ii -> XO (append ii j)
+  | XH -> j
+
 module PositiveMap =
  struct
   type key = positive
@@ -11024,6 +11086,24 @@ module PositiveMap =
      | XI ii -> Node (l, o, (add ii v r))
      | XO ii -> Node ((add ii v l), o, r)
      | XH -> Node (l, (Some v), r))
+
+  (** val xelements : 'a1 t -> key -> (key * 'a1) list **)
+
+  let rec xelements m i =
+    match m with
+    | Leaf -> []
+    | Node (l, o, r) ->
+      (match o with
+       | Some x ->
+         app (xelements l (append i (XO XH))) ((i,
+           x) :: (xelements r (append i (XI XH))))
+       | None ->
+         app (xelements l (append i (XO XH))) (xelements r (append i (XI XH))))
+
+  (** val elements : 'a1 t -> (key * 'a1) list **)
+
+  let elements m =
+    xelements m XH
  end
 
 (** val fmul_key : n -> n -> positive **)
@@ -11984,6 +12064,351 @@ let dec_add m d pkt =
 let dec_decode m d pkt =
   obind (dec_add m d pkt) (fun d' -> Ok ((dec_result d'), d'))
 
+type srow = (positive * n) list
+
+type smat = srow PositiveMap.t
+
+(** val ckey : n -> positive **)
+
+let ckey =
+  N.succ_pos
+
+type fop =
+| FAdd of n * n
+| FMul of n * n
+| FFMA of n * n * n
+
+(** val sadd : srow -> srow -> srow **)
+
+let rec sadd r1 r2 =
+  match r1 with
+  | [] -> r2
+  | p :: t1 ->
+    let (k1, v4) = p in
+    let rec aux r3 = match r3 with
+    | [] -> r1
+    | p0 :: t2 ->
+      let (k2, v5) = p0 in
+      (match Coq_Pos.compare k1 k2 with
+       | Eq ->
+         let v = N.coq_lxor v4 v5 in
+         if N.eqb v N0 then sadd t1 t2 else (k1, v) :: (sadd t1 t2)
+       | Lt -> (k1, v4) :: (sadd t1 r3)
+       | Gt -> (k2, v5) :: (aux t2))
+    in aux r2
+
+(** val sscale : n -> srow -> srow **)
+
+let rec sscale c = function
+| [] -> []
+| p :: t0 ->
+  let (k, v) = p in
+  let p0 = fmul c v in
+  if N.eqb p0 N0 then sscale c t0 else (k, p0) :: (sscale c t0)
+
+(** val get_row : smat -> n -> srow **)
+
+let get_row m i =
+  match PositiveMap.find (N.succ_pos i) m with
+  | Some r -> r
+  | None -> []
+
+(** val set_row : smat -> n -> srow -> smat **)
+
+let set_row m i r =
+  PositiveMap.add (N.succ_pos i) r m
+
+(** val fapply : fop -> smat -> smat **)
+
+let fapply o m =
+  match o with
+  | FAdd (d, s) -> set_row m d (sadd (get_row m d) (get_row m s))
+  | FMul (d, c) -> set_row m d (sscale c (get_row m d))
+  | FFMA (d, s, c) ->
+    set_row m d (sadd (get_row m d) (sscale c (get_row m s)))
+
+(** val fapply_ops : fop list -> smat -> smat **)
+
+let fapply_ops ops m =
+  fold_left (fun m0 o -> fapply o m0) ops m
+
+(** val fop_valid : n -> fop -> bool **)
+
+let fop_valid m = function
+| FAdd (d, s) -> (&&) ((&&) (N.ltb d m) (N.ltb s m)) (negb (N.eqb d s))
+| FMul (d, c) ->
+  (&&)
+    ((&&) (N.ltb d m)
+      (N.ltb c (Npos (XO (XO (XO (XO (XO (XO (XO (XO XH)))))))))))
+    (negb (N.eqb c N0))
+| FFMA (d, s, c) ->
+  (&&) ((&&) ((&&) (N.ltb d m) (N.ltb s m)) (negb (N.eqb d s)))
+    (N.ltb c (Npos (XO (XO (XO (XO (XO (XO (XO (XO XH))))))))))
+
+(** val srow_wfb : srow -> bool **)
+
+let srow_wfb r =
+  forallb (fun kv ->
+    N.ltb (snd kv) (Npos (XO (XO (XO (XO (XO (XO (XO (XO XH)))))))))) r
+
+(** val smat_wfb : smat -> bool **)
+
+let smat_wfb m =
+  forallb (fun ir -> srow_wfb (snd ir)) (PositiveMap.elements m)
+
+(** val srow_is_unit : n -> srow -> bool **)
+
+let srow_is_unit j = function
+| [] -> false
+| p :: l ->
+  let (k, v) = p in
+  (match l with
+   | [] -> (&&) (Coq_Pos.eqb k (ckey j)) (N.eqb v (Npos XH))
+   | _ :: _ -> false)
+
+(** val check_units : smat -> n -> n -> n list -> bool **)
+
+let rec check_units m m0 j = function
+| [] -> true
+| i :: t0 ->
+  (&&) ((&&) (N.ltb i m0) (srow_is_unit j (get_row m i)))
+    (check_units m m0 (N.succ j) t0)
+
+(** val check_cert_fast : n -> n -> smat -> fop list -> n list -> bool **)
+
+let check_cert_fast l m a ops order0 =
+  (&&)
+    ((&&) ((&&) (smat_wfb a) (forallb (fop_valid m) ops))
+      (N.eqb (N.of_nat (length order0)) l))
+    (check_units (fapply_ops ops a) m N0 order0)
+
+(** val sval : positive -> srow -> n **)
+
+let rec sval k = function
+| [] -> N0
+| p :: t0 ->
+  let (k', v) = p in
+  if Coq_Pos.eqb k k' then N.coq_lxor v (sval k t0) else sval k t0
+
+(** val srow_of_dense_from : n -> n list -> srow **)
+
+let rec srow_of_dense_from j = function
+| [] -> []
+| v :: t0 ->
+  if N.eqb v N0
+  then srow_of_dense_from (N.succ j) t0
+  else ((ckey j), v) :: (srow_of_dense_from (N.succ j) t0)
+
+(** val srow_of_dense : n list -> srow **)
+
+let srow_of_dense r =
+  srow_of_dense_from N0 r
+
+(** val nodup_from : unit PositiveMap.t -> n list -> bool **)
+
+let rec nodup_from seen = function
+| [] -> true
+| i :: t0 ->
+  (match PositiveMap.find (N.succ_pos i) seen with
+   | Some _ -> false
+   | None -> nodup_from (PositiveMap.add (N.succ_pos i) () seen) t0)
+
+(** val nodup_fast : n list -> bool **)
+
+let nodup_fast l =
+  nodup_from PositiveMap.empty l
+
+(** val decode_plan : n list -> (fop list * n list) option **)
+
+let rec decode_plan = function
+| [] -> None
+| tag :: rest ->
+  if N.eqb tag (Npos XH)
+  then (match rest with
+        | [] -> None
+        | d :: l ->
+          (match l with
+           | [] -> None
+           | s :: t0 ->
+             (match decode_plan t0 with
+              | Some p ->
+                let (ops, ord) = p in Some (((FAdd (d, s)) :: ops), ord)
+              | None -> None)))
+  else if N.eqb tag (Npos (XO XH))
+       then (match rest with
+             | [] -> None
+             | d :: l ->
+               (match l with
+                | [] -> None
+                | c :: t0 ->
+                  (match decode_plan t0 with
+                   | Some p ->
+                     let (ops, ord) = p in Some (((FMul (d, c)) :: ops), ord)
+                   | None -> None)))
+       else if N.eqb tag (Npos (XI XH))
+            then (match rest with
+                  | [] -> None
+                  | d :: l ->
+                    (match l with
+                     | [] -> None
+                     | s :: l0 ->
+                       (match l0 with
+                        | [] -> None
+                        | c :: t0 ->
+                          (match decode_plan t0 with
+                           | Some p ->
+                             let (ops, ord) = p in
+                             Some (((FFMA (d, s, c)) :: ops), ord)
+                           | None -> None))))
+            else if N.eqb tag (Npos (XO (XO XH)))
+                 then (match rest with
+                       | [] -> None
+                       | len :: ord ->
+                         if N.eqb (N.of_nat (length ord)) len
+                         then Some ([], ord)
+                         else None)
+                 else None
+
+(** val enc_matrix_m : mode -> n -> n list list outcome **)
+
+let enc_matrix_m m k =
+  obind (sys_params k) (fun sp ->
+    obind (generate_constraint_matrix m k (rangeN (N.to_nat sp.spK)))
+      (fun x ->
+      let (bin, hdpc) = x in Ok (full_matrix sp.spS sp.spH bin hdpc)))
+
+(** val enc_matrix : n -> n list list outcome **)
+
+let enc_matrix k =
+  enc_matrix_m Release k
+
+(** val sins : positive -> n -> srow -> srow **)
+
+let rec sins k x r = match r with
+| [] -> (k, x) :: []
+| p :: t0 ->
+  let (k', v') = p in
+  (match Coq_Pos.compare k k' with
+   | Gt -> (k', v') :: (sins k x t0)
+   | _ -> (k, x) :: r)
+
+(** val sset1 : n -> srow -> srow **)
+
+let sset1 j r =
+  let c = sval (ckey j) r in
+  if N.eqb c (Npos XH) then r else sins (ckey j) (N.coq_lxor c (Npos XH)) r
+
+(** val sset : n -> n -> smat -> n -> n -> smat outcome **)
+
+let sset m l m0 i j =
+  if (&&) (N.ltb i m) (N.ltb j l)
+  then Ok (set_row m0 i (sset1 j (get_row m0 i)))
+  else Panic PIndex
+
+(** val set_ldpc_s : n -> n -> n -> n -> n -> n -> smat -> smat outcome **)
+
+let set_ldpc_s m l s b w p mat =
+  obind
+    (ofor (N.to_nat b) N0 (fun i mat0 ->
+      obind (obind (div_ok i s) (fun d -> Ok (N.add (Npos XH) d))) (fun a ->
+        obind (rem_ok i s) (fun b0 ->
+          obind (sset m l mat0 b0 i) (fun mat1 ->
+            obind (rem_ok (N.add b0 a) s) (fun b1 ->
+              obind (sset m l mat1 b1 i) (fun mat2 ->
+                obind (rem_ok (N.add b1 a) s) (fun b2 -> sset m l mat2 b2 i)))))))
+      mat) (fun mat0 ->
+    obind
+      (ofor (N.to_nat s) N0 (fun i mat1 -> sset m l mat1 i (N.add i b)) mat0)
+      (fun mat1 ->
+      ofor (N.to_nat s) N0 (fun i mat2 ->
+        obind (rem_ok i p) (fun c1 ->
+          obind (sset m l mat2 i (N.add c1 w)) (fun mat3 ->
+            obind (rem_ok (N.add i (Npos XH)) p) (fun c2 ->
+              sset m l mat3 i (N.add c2 w))))) mat1))
+
+(** val set_enc_s :
+    mode -> n -> n -> n -> n -> n -> n -> n -> n list -> smat -> smat outcome **)
+
+let set_enc_s m m0 l first w p p1 j isis mat =
+  obind
+    (ofold (fun isi st ->
+      let (row, mat0) = st in
+      obind (intermediate_tuple_gen true m isi w j p1) (fun t0 ->
+        obind (enc_indices m t0 w p p1) (fun idx ->
+          obind
+            (ofold (fun j0 mat1 -> sset m0 l mat1 (N.add row first) j0) idx
+              mat0) (fun mat1 -> Ok ((N.add row (Npos XH)), mat1))))) isis
+      (N0, mat)) (fun r -> Ok (snd r))
+
+(** val put_rows : smat -> n -> srow list -> smat **)
+
+let rec put_rows m i = function
+| [] -> m
+| r :: t0 -> put_rows (set_row m i r) (N.succ i) t0
+
+(** val range_from : nat -> n -> n list **)
+
+let rec range_from n0 i =
+  match n0 with
+  | O -> []
+  | S k -> i :: (range_from k (N.succ i))
+
+(** val enc_matrix_sparse : n -> smat outcome **)
+
+let enc_matrix_sparse k =
+  obind (sys_params k) (fun sp ->
+    let kp = sp.spK in
+    let j = sp.spJ in
+    let sn = sp.spS in
+    let h = sp.spH in
+    let w = sp.spW in
+    let p = sp.spP in
+    let p1 = sp.spP1 in
+    let l = sp.spL in
+    let b = N.sub w sn in
+    let m = N.add (N.add sn h) kp in
+    obind (assert_ok (N.leb l m)) (fun _ ->
+      obind (set_ldpc_s m l sn b w p PositiveMap.empty) (fun mat ->
+        obind (num_lt_symbols kp) (fun w' ->
+          obind (num_pi_symbols kp) (fun p' ->
+            obind
+              (set_enc_s Release m l (N.add sn h) w' p' p1 j
+                (range_from (N.to_nat kp) N0) mat) (fun mat0 ->
+              obind (generate_hdpc_rows Release kp sn h) (fun hd0 ->
+                obind
+                  (assert_ok
+                    ((&&) (N.eqb (N.of_nat (length hd0)) h)
+                      (forallb (fun r -> N.eqb (N.of_nat (length r)) l) hd0)))
+                  (fun _ -> Ok (put_rows mat0 sn (map srow_of_dense hd0))))))))))
+
+(** val fma_scalar_ok : fop -> bool **)
+
+let fma_scalar_ok = function
+| FFMA (_, _, c) -> (&&) (negb (N.eqb c N0)) (negb (N.eqb c (Npos XH)))
+| _ -> true
+
+(** val cert_ok : n -> n list -> bool **)
+
+let cert_ok k v =
+  match decode_plan v with
+  | Some p ->
+    let (ops, ord) = p in
+    (match sys_params k with
+     | Ok sp ->
+       (match enc_matrix_sparse k with
+        | Ok a ->
+          let l = sp.spL in
+          (&&)
+            ((&&)
+              ((&&)
+                ((&&) (N.leb k sp.spK)
+                  (N.eqb (N.add (N.add sp.spS sp.spH) sp.spK) l))
+                (check_cert_fast l l a ops ord)) (nodup_fast ord))
+            (forallb fma_scalar_ok ops)
+        | Panic _ -> false)
+     | Panic _ -> false)
+  | None -> false
+
 (** val argn : n list -> nat -> n **)
 
 let argn l i =
@@ -12361,6 +12786,36 @@ let run_slab_replay m a =
            None }) (fun s' ->
          obind (slab_read s' nread N0) (fun r -> Ok (concat r)))))
 
+(** val run_cert_ok : n list -> n list **)
+
+let run_cert_ok a =
+  (Npos
+    XH) :: ((if cert_ok (argn a O) (skipn (S O) a) then Npos XH else N0) :: [])
+
+(** val run_check_intermediate : n list -> n list **)
+
+let run_check_intermediate a =
+  let k = argn a O in
+  let t0 = argn a (S O) in
+  let tn = N.to_nat t0 in
+  (match sys_params k with
+   | Ok sp ->
+     (match enc_matrix k with
+      | Ok a0 ->
+        let data = firstn (N.to_nat (N.mul k t0)) (skipn (S (S O)) a) in
+        let cbytes = skipn (add (S (S O)) (N.to_nat (N.mul k t0))) a in
+        let c = chunks t0 cbytes in
+        let d = create_d sp (chunks t0 data) tn in
+        (Npos
+        XH) :: ((if (&&)
+                      (forallb (fun rd ->
+                        vec_eqb (lincomb fmul tn (fst rd) c) (snd rd))
+                        (combine a0 d)) (eqb (length c) (N.to_nat sp.spL))
+                 then Npos XH
+                 else N0) :: [])
+      | Panic _ -> N0 :: (N0 :: []))
+   | Panic _ -> N0 :: (N0 :: []))
+
 type bvec = n list * n
 
 (** val bv_padding : n -> n **)
@@ -12373,10 +12828,10 @@ let bv_padding len =
 
 (** val bit_at : n list -> n -> n **)
 
-let bit_at elements p =
+let bit_at elements1 p =
   if N.testbit
        (nth (N.to_nat (N.div p (Npos (XO (XO (XO (XO (XO (XO XH)))))))))
-         elements N0) (N.modulo p (Npos (XO (XO (XO (XO (XO (XO XH))))))))
+         elements1 N0) (N.modulo p (Npos (XO (XO (XO (XO (XO (XO XH))))))))
   then Npos XH
   else N0
 
@@ -12588,11 +13043,11 @@ let select_mask bit =
 (** val to_octet_vec_loop :
     n list -> nat -> n -> n -> ((n list * n) * n) outcome **)
 
-let rec to_octet_vec_loop elements n0 word bit =
+let rec to_octet_vec_loop elements1 n0 word bit =
   match n0 with
   | O -> Ok (([], word), bit)
   | S k ->
-    obind (nth_ok elements (N.to_nat word)) (fun e ->
+    obind (nth_ok elements1 (N.to_nat word)) (fun e ->
       obind (select_mask bit) (fun m ->
         let value = if negb (N.eqb (N.coq_land e m) N0) then Npos XH else N0
         in
@@ -12602,7 +13057,7 @@ let rec to_octet_vec_loop elements n0 word bit =
           then ((N.add word (Npos XH)), N0)
           else (word, bit1)
         in
-        obind (to_octet_vec_loop elements k (fst wb) (snd wb)) (fun r -> Ok
+        obind (to_octet_vec_loop elements1 k (fst wb) (snd wb)) (fun r -> Ok
           (((value :: (fst (fst r))), (snd (fst r))), (snd r)))))
 
 (** val to_octet_vec : bvec -> n list outcome **)
@@ -12616,13 +13071,13 @@ let to_octet_vec bv =
 
 (** val u32_view : n list -> n list **)
 
-let u32_view elements =
+let u32_view elements1 =
   flat_map (fun e ->
     (N.modulo e (N.pow (Npos (XO XH)) (Npos (XO (XO (XO (XO (XO XH)))))))) :: (
     (N.modulo
       (N.div e (N.pow (Npos (XO XH)) (Npos (XO (XO (XO (XO (XO XH))))))))
       (N.pow (Npos (XO XH)) (Npos (XO (XO (XO (XO (XO XH)))))))) :: []))
-    elements
+    elements1
 
 (** val xor_u64_loop : nat -> nat -> n list -> n list -> n list outcome **)
 
@@ -13787,6 +14242,1150 @@ let run_kern f a =
         | XH -> N0 :: ((Npos (XI (XI (XO (XO (XO (XI XH))))))) :: []))
      | XH -> N0 :: ((Npos (XI (XI (XO (XO (XO (XI XH))))))) :: []))
 
+type bitmat = { bh : nat; bw : nat; cell : bool list list;
+                defd : bool list list }
+
+(** val tab : nat -> nat -> (nat -> nat -> bool) -> bool list list **)
+
+let tab h w f =
+  map (fun i -> map (fun j -> f i j) (seq O w)) (seq O h)
+
+(** val bm_get : bitmat -> nat -> nat -> bool **)
+
+let bm_get a i j =
+  nth j (nth i a.cell []) false
+
+(** val bm_def : bitmat -> nat -> nat -> bool **)
+
+let bm_def a i j =
+  nth j (nth i a.defd []) false
+
+(** val bm_make :
+    nat -> nat -> (nat -> nat -> bool) -> (nat -> nat -> bool) -> bitmat **)
+
+let bm_make h w f d =
+  { bh = h; bw = w; cell = (tab h w f); defd = (tab h w d) }
+
+(** val swp : nat -> nat -> nat -> nat **)
+
+let swp i j x =
+  if Nat.eqb x i then j else if Nat.eqb x j then i else x
+
+(** val bm_new : nat -> nat -> bitmat **)
+
+let bm_new h w =
+  bm_make h w (fun _ _ -> false) (fun _ _ -> true)
+
+(** val bm_set : bitmat -> nat -> nat -> bool -> bitmat **)
+
+let bm_set a i j v =
+  bm_make a.bh a.bw (fun r c ->
+    if (&&) (Nat.eqb r i) (Nat.eqb c j) then v else bm_get a r c) (fun r c ->
+    if (&&) (Nat.eqb r i) (Nat.eqb c j) then true else bm_def a r c)
+
+(** val bm_swap_rows : bitmat -> nat -> nat -> bitmat **)
+
+let bm_swap_rows a i j =
+  bm_make a.bh a.bw (fun r c -> bm_get a (swp i j r) c) (fun r c ->
+    bm_def a (swp i j r) c)
+
+(** val bm_swap_columns : bitmat -> nat -> nat -> nat -> bitmat **)
+
+let bm_swap_columns a i j _ =
+  bm_make a.bh a.bw (fun r c -> bm_get a r (swp i j c)) (fun r c ->
+    bm_def a r (swp i j c))
+
+(** val bm_add_assign_rows : bitmat -> nat -> nat -> nat -> bitmat **)
+
+let bm_add_assign_rows a dest src start_col =
+  bm_make a.bh a.bw (fun r c ->
+    if Nat.eqb r dest
+    then xorb (bm_get a dest c) (bm_get a src c)
+    else bm_get a r c) (fun r c ->
+    if Nat.eqb r dest
+    then if Nat.ltb c start_col
+         then false
+         else (&&) (bm_def a dest c) (bm_def a src c)
+    else bm_def a r c)
+
+(** val bm_resize : bitmat -> nat -> nat -> bitmat **)
+
+let bm_resize a new_h new_w =
+  bm_make new_h new_w (bm_get a) (bm_def a)
+
+(** val bm_hint_column_dense_and_frozen : bitmat -> nat -> bitmat **)
+
+let bm_hint_column_dense_and_frozen a _ =
+  a
+
+(** val bm_enable_column_access_acceleration : bitmat -> bitmat **)
+
+let bm_enable_column_access_acceleration a =
+  a
+
+(** val bm_disable_column_access_acceleration : bitmat -> bitmat **)
+
+let bm_disable_column_access_acceleration a =
+  a
+
+(** val q_count_ones : (nat -> nat -> bool) -> nat -> nat -> nat -> nat **)
+
+let q_count_ones f row s e =
+  length (filter (fun c -> f row c) (seq s (sub e s)))
+
+(** val q_row :
+    (nat -> nat -> bool) -> nat -> nat -> nat -> (nat * bool) list **)
+
+let q_row f row s e =
+  map (fun c -> (c, (f row c))) (seq s (sub e s))
+
+(** val q_ones_in_column :
+    (nat -> nat -> bool) -> nat -> nat -> nat -> nat list **)
+
+let q_ones_in_column f col s e =
+  filter (fun r -> f r col) (seq s (sub e s))
+
+(** val q_sub_row : (nat -> nat -> bool) -> nat -> nat -> nat -> bool list **)
+
+let q_sub_row f w row s =
+  map (fun c -> f row c) (seq s (sub w s))
+
+(** val q_non_zero_columns :
+    (nat -> nat -> bool) -> nat -> nat -> nat -> nat list **)
+
+let q_non_zero_columns f w row s =
+  filter (fun c -> f row c) (seq s (sub w s))
+
+(** val bm_count_ones : bitmat -> nat -> nat -> nat -> nat **)
+
+let bm_count_ones a row s e =
+  q_count_ones (bm_get a) row s e
+
+(** val bm_row : bitmat -> nat -> nat -> nat -> (nat * bool) list **)
+
+let bm_row a row s e =
+  q_row (bm_get a) row s e
+
+(** val bm_ones_in_column : bitmat -> nat -> nat -> nat -> nat list **)
+
+let bm_ones_in_column a col s e =
+  q_ones_in_column (bm_get a) col s e
+
+(** val bm_sub_row : bitmat -> nat -> nat -> bool list **)
+
+let bm_sub_row a row s =
+  q_sub_row (bm_get a) a.bw row s
+
+(** val bm_non_zero_columns : bitmat -> nat -> nat -> nat list **)
+
+let bm_non_zero_columns a row s =
+  q_non_zero_columns (bm_get a) a.bw row s
+
+type op =
+| OSet of n * n * n
+| OGet of n * n
+| OSwapRows of n * n
+| OSwapCols of n * n * n
+| OAddRows of n * n * n
+| OResize of n * n
+| OCountOnes of n * n * n
+| ORowIter of n * n * n
+| OOnesInCol of n * n * n
+| OSubRow of n * n
+| ONonZeroCols of n * n
+| OFreeze of n
+| OEnableAccel
+| ODisableAccel
+
+type ans =
+| ABit of bool
+| ANat of nat
+| ARow of (nat * bool) list
+| ANats of nat list
+| ABits of bool list
+
+(** val all_def_row : bitmat -> nat -> nat -> nat -> bool **)
+
+let all_def_row a row s e =
+  forallb (fun c -> bm_def a row c) (seq s (sub e s))
+
+(** val all_def_col : bitmat -> nat -> nat -> nat -> bool **)
+
+let all_def_col a col s e =
+  forallb (fun r -> bm_def a r col) (seq s (sub e s))
+
+(** val hint_ok : bitmat -> nat -> nat -> nat -> bool **)
+
+let hint_ok a i j hint =
+  forallb (fun r ->
+    (&&) (eqb0 (bm_def a r i) (bm_def a r j))
+      ((||) (negb (bm_def a r i)) (eqb0 (bm_get a r i) (bm_get a r j))))
+    (seq O (Nat.min hint a.bh))
+
+(** val adm : op -> bitmat -> bool **)
+
+let adm o a =
+  let h = N.of_nat a.bh in
+  let w = N.of_nat a.bw in
+  (match o with
+   | OSet (i, j, _) -> (&&) (N.ltb i h) (N.ltb j w)
+   | OGet (i, j) ->
+     (&&) ((&&) (N.ltb i h) (N.ltb j w)) (bm_def a (N.to_nat i) (N.to_nat j))
+   | OSwapRows (i, j) -> (&&) (N.ltb i h) (N.ltb j h)
+   | OSwapCols (i, j, hint) ->
+     (&&) ((&&) (N.ltb i w) (N.ltb j w))
+       (hint_ok a (N.to_nat i) (N.to_nat j) (N.to_nat (N.min hint h)))
+   | OAddRows (dest, src, start_col) ->
+     (&&) ((&&) ((&&) (N.ltb dest h) (N.ltb src h)) (negb (N.eqb dest src)))
+       (N.leb start_col w)
+   | OResize (nh, nw) -> (&&) (N.leb nh h) (N.leb nw w)
+   | OCountOnes (row, s, e) ->
+     (&&) ((&&) ((&&) (N.ltb row h) (N.leb s e)) (N.leb e w))
+       (all_def_row a (N.to_nat row) (N.to_nat s) (N.to_nat e))
+   | ORowIter (row, s, e) ->
+     (&&) ((&&) ((&&) (N.ltb row h) (N.leb s e)) (N.leb e w))
+       (all_def_row a (N.to_nat row) (N.to_nat s) (N.to_nat e))
+   | OOnesInCol (col, s, e) ->
+     (&&) ((&&) ((&&) (N.ltb col w) (N.leb s e)) (N.leb e h))
+       (all_def_col a (N.to_nat col) (N.to_nat s) (N.to_nat e))
+   | OSubRow (row, s) ->
+     (&&) ((&&) (N.ltb row h) (N.leb s w))
+       (all_def_row a (N.to_nat row) (N.to_nat s) a.bw)
+   | ONonZeroCols (row, s) ->
+     (&&) ((&&) (N.ltb row h) (N.leb s w))
+       (all_def_row a (N.to_nat row) (N.to_nat s) a.bw)
+   | OFreeze col -> N.ltb col w
+   | _ -> true)
+
+(** val bm_step : bitmat -> op -> bitmat * ans option **)
+
+let bm_step a = function
+| OSet (i, j, v) ->
+  ((bm_set a (N.to_nat i) (N.to_nat j) (negb (N.eqb v N0))), None)
+| OGet (i, j) -> (a, (Some (ABit (bm_get a (N.to_nat i) (N.to_nat j)))))
+| OSwapRows (i, j) -> ((bm_swap_rows a (N.to_nat i) (N.to_nat j)), None)
+| OSwapCols (i, j, hint) ->
+  ((bm_swap_columns a (N.to_nat i) (N.to_nat j)
+     (N.to_nat (N.min hint (N.of_nat a.bh)))), None)
+| OAddRows (d, s, c) ->
+  ((bm_add_assign_rows a (N.to_nat d) (N.to_nat s) (N.to_nat c)), None)
+| OResize (nh, nw) -> ((bm_resize a (N.to_nat nh) (N.to_nat nw)), None)
+| OCountOnes (row, s, e) ->
+  (a, (Some (ANat
+    (bm_count_ones a (N.to_nat row) (N.to_nat s) (N.to_nat e)))))
+| ORowIter (row, s, e) ->
+  (a, (Some (ARow (bm_row a (N.to_nat row) (N.to_nat s) (N.to_nat e)))))
+| OOnesInCol (col, s, e) ->
+  (a, (Some (ANats
+    (bm_ones_in_column a (N.to_nat col) (N.to_nat s) (N.to_nat e)))))
+| OSubRow (row, s) ->
+  (a, (Some (ABits (bm_sub_row a (N.to_nat row) (N.to_nat s)))))
+| ONonZeroCols (row, s) ->
+  (a, (Some (ANats (bm_non_zero_columns a (N.to_nat row) (N.to_nat s)))))
+| OFreeze col -> ((bm_hint_column_dense_and_frozen a (N.to_nat col)), None)
+| OEnableAccel -> ((bm_enable_column_access_acceleration a), None)
+| ODisableAccel -> ((bm_disable_column_access_acceleration a), None)
+
+(** val upd : 'a1 list -> nat -> 'a1 -> 'a1 list **)
+
+let rec upd l i v =
+  match l with
+  | [] -> []
+  | x :: t0 -> (match i with
+                | O -> v :: t0
+                | S k -> x :: (upd t0 k v))
+
+(** val vget : n list -> n -> n outcome **)
+
+let vget l i =
+  if N.ltb i (N.of_nat (length l))
+  then nth_ok l (N.to_nat i)
+  else Panic PIndex
+
+(** val vset : n list -> n -> n -> n list outcome **)
+
+let vset l i x =
+  if N.ltb i (N.of_nat (length l))
+  then Ok (upd l (N.to_nat i) x)
+  else Panic PIndex
+
+(** val vswap : n list -> n -> n -> n list outcome **)
+
+let vswap l a b =
+  obind (vget l a) (fun x ->
+    obind (vget l b) (fun y -> obind (vset l a y) (fun l1 -> vset l1 b x)))
+
+(** val slice_ok : n list -> n -> n -> n list outcome **)
+
+let slice_ok l a b =
+  if (&&) (N.leb a b) (N.leb b (N.of_nat (length l)))
+  then Ok (firstn (N.to_nat (N.sub b a)) (skipn (N.to_nat a) l))
+  else Panic PIndex
+
+(** val range_from0 : n -> n -> n list **)
+
+let range_from0 a b =
+  map (fun k -> N.add a (N.of_nat k)) (seq O (N.to_nat (N.sub b a)))
+
+(** val ofold1 :
+    ('a1 -> 'a2 -> 'a1 outcome) -> 'a2 list -> 'a1 -> 'a1 outcome **)
+
+let rec ofold1 f l a =
+  match l with
+  | [] -> Ok a
+  | x :: t0 -> obind (f a x) (fun a1 -> ofold1 f t0 a1)
+
+(** val ofilter : ('a1 -> bool outcome) -> 'a1 list -> 'a1 list outcome **)
+
+let rec ofilter p = function
+| [] -> Ok []
+| x :: t0 ->
+  obind (p x) (fun b ->
+    obind (ofilter p t0) (fun r -> Ok (if b then x :: r else r)))
+
+(** val map3 : ('a1 -> 'a2 -> 'a3) -> 'a1 list -> 'a2 list -> 'a3 list **)
+
+let rec map3 f l1 l2 =
+  match l1 with
+  | [] -> []
+  | a :: t1 -> (match l2 with
+                | [] -> []
+                | b :: t2 -> (f a b) :: (map3 f t1 t2))
+
+(** val pop_pos : positive -> n **)
+
+let rec pop_pos = function
+| XI q -> N.succ (pop_pos q)
+| XO q -> pop_pos q
+| XH -> Npos XH
+
+(** val popcount : n -> n **)
+
+let popcount = function
+| N0 -> N0
+| Npos p -> pop_pos p
+
+type dmat = { height : n; width : n; elements0 : n list }
+
+(** val wORD_WIDTH0 : n **)
+
+let wORD_WIDTH0 =
+  Npos (XO (XO (XO (XO (XO (XO XH))))))
+
+(** val word_offset : n -> n **)
+
+let word_offset col =
+  N.div col wORD_WIDTH0
+
+(** val row_word_width : dmat -> n **)
+
+let row_word_width m =
+  ceil_div m.width wORD_WIDTH0
+
+(** val bit_position : dmat -> n -> n -> n * n **)
+
+let bit_position m row col =
+  ((N.add (N.mul row (row_word_width m)) (word_offset col)),
+    (N.modulo col wORD_WIDTH0))
+
+(** val select_mask0 : n -> n **)
+
+let select_mask0 bit =
+  N.shiftl (Npos XH) bit
+
+(** val not64 : n -> n **)
+
+let not64 x =
+  N.ldiff (N.ones (Npos (XO (XO (XO (XO (XO (XO XH)))))))) x
+
+(** val select_all_right_of_mask : n -> n **)
+
+let select_all_right_of_mask bit =
+  N.sub (select_mask0 bit) (Npos XH)
+
+(** val select_bit_and_all_left_mask : n -> n **)
+
+let select_bit_and_all_left_mask bit =
+  not64 (select_all_right_of_mask bit)
+
+(** val clear_bit : n -> n -> n **)
+
+let clear_bit word bit =
+  N.coq_land word (not64 (select_mask0 bit))
+
+(** val set_bit : n -> n -> n **)
+
+let set_bit word bit =
+  N.coq_lor word (select_mask0 bit)
+
+(** val dm_new : n -> n -> dmat **)
+
+let dm_new h w =
+  { height = h; width = w; elements0 =
+    (repeat N0
+      (N.to_nat
+        (N.div (N.mul h (N.sub (N.add w wORD_WIDTH0) (Npos XH))) wORD_WIDTH0))) }
+
+(** val with_elements : dmat -> n list -> dmat **)
+
+let with_elements m els =
+  { height = m.height; width = m.width; elements0 = els }
+
+(** val dm_set : dmat -> n -> n -> n -> dmat outcome **)
+
+let dm_set m i j value =
+  let (word, bit) = bit_position m i j in
+  obind (vget m.elements0 word) (fun x ->
+    let x' = if N.eqb value N0 then clear_bit x bit else set_bit x bit in
+    obind (vset m.elements0 word x') (fun els -> Ok (with_elements m els)))
+
+(** val dm_get : dmat -> n -> n -> n outcome **)
+
+let dm_get m i j =
+  let (word, bit) = bit_position m i j in
+  obind (vget m.elements0 word) (fun x -> Ok
+    (if N.eqb (N.coq_land x (select_mask0 bit)) N0 then N0 else Npos XH))
+
+(** val dm_count_ones : bool -> dmat -> n -> n -> n -> n outcome **)
+
+let dm_count_ones fixed m row start_col end_col =
+  if (&&) fixed (N.leb end_col start_col)
+  then Ok N0
+  else let (start_word, start_bit) = bit_position m row start_col in
+       let (end_word, end_bit) = bit_position m row end_col in
+       if N.eqb start_word end_word
+       then let mask0 =
+              N.coq_land (select_bit_and_all_left_mask start_bit)
+                (select_all_right_of_mask end_bit)
+            in
+            obind (vget m.elements0 start_word) (fun x -> Ok
+              (popcount (N.coq_land x mask0)))
+       else obind (vget m.elements0 start_word) (fun x ->
+              let ones0 =
+                popcount
+                  (N.coq_land x (select_bit_and_all_left_mask start_bit))
+              in
+              obind
+                (ofold1 (fun acc word ->
+                  obind (vget m.elements0 word) (fun y -> Ok
+                    (N.add acc (popcount y))))
+                  (range_from0 (N.add start_word (Npos XH)) end_word) ones0)
+                (fun ones1 ->
+                if N.ltb N0 end_bit
+                then obind (vget m.elements0 end_word) (fun y -> Ok
+                       (N.add ones1
+                         (popcount
+                           (N.coq_land y (select_all_right_of_mask end_bit)))))
+                else Ok ones1))
+
+(** val iter_dense :
+    nat -> n list -> n -> n -> n -> n -> (n * n) list outcome **)
+
+let rec iter_dense fuel sl end_col idx widx bidx =
+  match fuel with
+  | O -> Panic PFuel
+  | S f ->
+    if N.eqb idx end_col
+    then Ok []
+    else obind (vget sl widx) (fun x ->
+           let value =
+             if N.eqb (N.coq_land x (select_mask0 bidx)) N0
+             then N0
+             else Npos XH
+           in
+           let bidx1 = N.add bidx (Npos XH) in
+           if N.eqb bidx1 (Npos (XO (XO (XO (XO (XO (XO XH)))))))
+           then let bidx2 = N0 in
+                let widx2 = N.add widx (Npos XH) in
+                obind
+                  (iter_dense f sl end_col (N.add idx (Npos XH)) widx2 bidx2)
+                  (fun rest -> Ok ((idx, value) :: rest))
+           else obind
+                  (iter_dense f sl end_col (N.add idx (Npos XH)) widx bidx1)
+                  (fun rest -> Ok ((idx, value) :: rest)))
+
+(** val dm_get_row_iter :
+    bool -> dmat -> n -> n -> n -> (n * n) list outcome **)
+
+let dm_get_row_iter fixed m row start_col end_col =
+  let (first_word, first_bit) = bit_position m row start_col in
+  obind
+    (if fixed
+     then let word_count =
+            if N.ltb start_col end_col
+            then N.add
+                   (N.sub (word_offset (N.sub end_col (Npos XH)))
+                     (word_offset start_col)) (Npos XH)
+            else N0
+          in
+          slice_ok m.elements0 first_word (N.add first_word word_count)
+     else let (last_word, _) = bit_position m row end_col in
+          slice_ok m.elements0 first_word (N.add last_word (Npos XH)))
+    (fun sl ->
+    iter_dense
+      (add
+        (mul (S (S (S (S (S (S (S (S (S (S (S (S (S (S (S (S (S (S (S (S (S
+          (S (S (S (S (S (S (S (S (S (S (S (S (S (S (S (S (S (S (S (S (S (S
+          (S (S (S (S (S (S (S (S (S (S (S (S (S (S (S (S (S (S (S (S (S
+          O))))))))))))))))))))))))))))))))))))))))))))))))))))))))))))))))
+          (add (length sl) (S O))) (S O)) sl end_col start_col N0 first_bit)
+
+(** val dm_get_ones_in_column : dmat -> n -> n -> n -> n list outcome **)
+
+let dm_get_ones_in_column m col start_row end_row =
+  obind
+    (ofilter (fun row ->
+      obind (dm_get m row col) (fun v -> Ok (N.eqb v (Npos XH))))
+      (range_from0 start_row end_row)) (fun rows -> Ok (map u32 rows))
+
+(** val dm_get_sub_row_as_octets : dmat -> n -> n -> (n list * n) outcome **)
+
+let dm_get_sub_row_as_octets m row start_col =
+  if N.ltb m.width start_col
+  then Panic POverflow
+  else let n0 = N.sub m.width start_col in
+       let result =
+         repeat N0
+           (N.to_nat (ceil_div n0 (Npos (XO (XO (XO (XO (XO (XO XH)))))))))
+       in
+       obind
+         (ofold1 (fun st col ->
+           let (p, bit) = st in
+           let (res, word) = p in
+           obind
+             (if N.eqb bit N0
+              then if N.eqb word N0
+                   then Panic POverflow
+                   else Ok ((N.sub word (Npos XH)), (Npos (XI (XI (XI (XI (XI
+                          XH)))))))
+              else Ok (word, (N.sub bit (Npos XH)))) (fun wb ->
+             let (word0, bit0) = wb in
+             obind (dm_get m row col) (fun v ->
+               if N.eqb v (Npos XH)
+               then obind (vget res word0) (fun x ->
+                      obind
+                        (vset res word0 (N.coq_lor x (select_mask0 bit0)))
+                        (fun res' -> Ok ((res', word0), bit0)))
+               else Ok ((res, word0), bit0))))
+           (rev (range_from0 start_col m.width)) ((result,
+           (N.of_nat (length result))), N0)) (fun st ->
+         let (p, _) = st in
+         let (res, _) = p in
+         obind
+           (assert_ok
+             (N.eqb (N.of_nat (length res))
+               (ceil_div n0 (Npos (XO (XO (XO (XO (XO (XO XH))))))))))
+           (fun _ -> Ok (res, n0)))
+
+(** val bov_padding_bits : n -> n **)
+
+let bov_padding_bits len =
+  N.modulo
+    (N.sub (Npos (XO (XO (XO (XO (XO (XO XH)))))))
+      (N.modulo len (Npos (XO (XO (XO (XO (XO (XO XH))))))))) (Npos (XO (XO
+    (XO (XO (XO (XO XH)))))))
+
+(** val bov_unpack : nat -> n list -> n -> n -> ((n list * n) * n) outcome **)
+
+let rec bov_unpack n0 els word bit =
+  match n0 with
+  | O -> Ok (([], word), bit)
+  | S k ->
+    obind (vget els word) (fun x ->
+      let value =
+        if N.eqb (N.coq_land x (select_mask0 bit)) N0 then N0 else Npos XH
+      in
+      let bit1 = N.add bit (Npos XH) in
+      if N.eqb bit1 (Npos (XO (XO (XO (XO (XO (XO XH)))))))
+      then let word2 = N.add word (Npos XH) in
+           let bit2 = N0 in
+           obind (bov_unpack k els word2 bit2) (fun r ->
+             let (p, bf) = r in
+             let (rest, wf) = p in Ok (((value :: rest), wf), bf))
+      else obind (bov_unpack k els word bit1) (fun r ->
+             let (p, bf) = r in
+             let (rest, wf) = p in Ok (((value :: rest), wf), bf)))
+
+(** val bov_to_octet_vec : n list -> n -> n list outcome **)
+
+let bov_to_octet_vec els len =
+  obind (bov_unpack (N.to_nat len) els N0 (bov_padding_bits len)) (fun r ->
+    let (p, bit) = r in
+    let (res, word) = p in
+    obind (assert_ok (N.eqb word (N.of_nat (length els)))) (fun _ ->
+      obind (assert_ok (N.eqb bit N0)) (fun _ -> Ok res)))
+
+(** val dm_query_non_zero_columns : dmat -> n -> n -> n list outcome **)
+
+let dm_query_non_zero_columns m row start_col =
+  ofilter (fun col ->
+    obind (dm_get m row col) (fun v -> Ok (negb (N.eqb v N0))))
+    (range_from0 start_col m.width)
+
+(** val dm_swap_rows : dmat -> n -> n -> dmat outcome **)
+
+let dm_swap_rows m i j =
+  let (row_i, _) = bit_position m i N0 in
+  let (row_j, _) = bit_position m j N0 in
+  obind
+    (ofold1 (fun els k -> vswap els (N.add row_i k) (N.add row_j k))
+      (range_from0 N0 (row_word_width m)) m.elements0) (fun els -> Ok
+    (with_elements m els))
+
+(** val swap_columns_row :
+    n -> n -> n -> n -> n -> n -> n -> n list -> n -> n list outcome **)
+
+let swap_columns_row word_i word_j bit_i bit_j unset_i unset_j row_width els row =
+  let pi = N.add (N.mul row row_width) word_i in
+  let pj = N.add (N.mul row row_width) word_j in
+  obind (vget els pi) (fun xi ->
+    let i_set = negb (N.eqb (N.coq_land xi bit_i) N0) in
+    obind (vget els pj) (fun xj ->
+      obind
+        (if N.eqb (N.coq_land xj bit_j) N0
+         then obind (vget els pi) (fun y ->
+                vset els pi (N.coq_land y unset_i))
+         else obind (vget els pi) (fun y -> vset els pi (N.coq_lor y bit_i)))
+        (fun els1 ->
+        if i_set
+        then obind (vget els1 pj) (fun y -> vset els1 pj (N.coq_lor y bit_j))
+        else obind (vget els1 pj) (fun y ->
+               vset els1 pj (N.coq_land y unset_j)))))
+
+(** val dm_swap_columns : dmat -> n -> n -> n -> dmat outcome **)
+
+let dm_swap_columns m i j start_row_hint =
+  let (word_i, bit_i) = bit_position m N0 i in
+  let (word_j, bit_j) = bit_position m N0 j in
+  let unset_i = not64 (select_mask0 bit_i) in
+  let unset_j = not64 (select_mask0 bit_j) in
+  let bit_i0 = select_mask0 bit_i in
+  let bit_j0 = select_mask0 bit_j in
+  let row_width = row_word_width m in
+  obind
+    (ofold1
+      (swap_columns_row word_i word_j bit_i0 bit_j0 unset_i unset_j row_width)
+      (range_from0 start_row_hint m.height) m.elements0) (fun els -> Ok
+    (with_elements m els))
+
+(** val dm_enable_column_access_acceleration : dmat -> dmat **)
+
+let dm_enable_column_access_acceleration m =
+  m
+
+(** val dm_disable_column_access_acceleration : dmat -> dmat **)
+
+let dm_disable_column_access_acceleration m =
+  m
+
+(** val dm_hint_column_dense_and_frozen : dmat -> n -> dmat **)
+
+let dm_hint_column_dense_and_frozen m _ =
+  m
+
+(** val get_both_ranges :
+    n list -> n -> n -> n -> (n list * n list) outcome **)
+
+let get_both_ranges v i j len =
+  let n0 = N.of_nat (length v) in
+  if N.ltb i j
+  then if N.ltb n0 j
+       then Panic PIndex
+       else obind (slice_ok (firstn (N.to_nat j) v) i (N.add i len))
+              (fun a ->
+              obind (slice_ok (skipn (N.to_nat j) v) N0 len) (fun b -> Ok (a,
+                b)))
+  else if N.ltb n0 i
+       then Panic PIndex
+       else obind (slice_ok (skipn (N.to_nat i) v) N0 len) (fun a ->
+              obind (slice_ok (firstn (N.to_nat i) v) j (N.add j len))
+                (fun b -> Ok (a, b)))
+
+(** val add_assign_binary : n list -> n list -> n list outcome **)
+
+let add_assign_binary dest src =
+  obind (slice_ok src N0 (N.of_nat (length dest))) (fun s -> Ok
+    (map3 N.coq_lxor dest s))
+
+(** val splice : n list -> n -> n list -> n list **)
+
+let splice v at_ x =
+  app (firstn (N.to_nat at_) v)
+    (app x (skipn (add (N.to_nat at_) (length x)) v))
+
+(** val dm_add_assign_rows : dmat -> n -> n -> n -> dmat outcome **)
+
+let dm_add_assign_rows m dest src _ =
+  if N.eqb dest src
+  then Panic PAssert
+  else let (dest_word, _) = bit_position m dest N0 in
+       let (src_word, _) = bit_position m src N0 in
+       let row_width = row_word_width m in
+       obind (get_both_ranges m.elements0 dest_word src_word row_width)
+         (fun p ->
+         let (dest_row, temp_row) = p in
+         obind (add_assign_binary dest_row temp_row) (fun d -> Ok
+           (with_elements m (splice m.elements0 dest_word d))))
+
+(** val resize_loop :
+    nat -> n list -> n -> n -> n -> n -> (n list * n) outcome **)
+
+let rec resize_loop n0 els src dest new_row_width words_to_remove =
+  match n0 with
+  | O -> Ok (els, src)
+  | S k ->
+    obind (vget els src) (fun x ->
+      obind (vset els dest x) (fun els1 ->
+        let src1 = N.add src (Npos XH) in
+        let dest1 = N.add dest (Npos XH) in
+        obind (rem_ok dest1 new_row_width) (fun r ->
+          let src2 = if N.eqb r N0 then N.add src1 words_to_remove else src1
+          in
+          resize_loop k els1 src2 dest1 new_row_width words_to_remove)))
+
+(** val dm_resize : dmat -> n -> n -> dmat outcome **)
+
+let dm_resize m new_height new_width =
+  if negb (N.leb new_height m.height)
+  then Panic PAssert
+  else if negb (N.leb new_width m.width)
+       then Panic PAssert
+       else let old_row_width = row_word_width m in
+            let m1 = { height = new_height; width = new_width; elements0 =
+              m.elements0 }
+            in
+            let new_row_width = row_word_width m1 in
+            let words_to_remove = N.sub old_row_width new_row_width in
+            obind
+              (if N.ltb N0 words_to_remove
+               then obind
+                      (resize_loop
+                        (N.to_nat (N.mul new_height new_row_width))
+                        m.elements0 N0 N0 new_row_width words_to_remove)
+                      (fun r ->
+                      let (els, src) = r in
+                      obind
+                        (assert_ok
+                          (N.eqb src (N.mul new_height old_row_width)))
+                        (fun _ -> Ok els))
+               else Ok m.elements0) (fun els -> Ok { height = new_height;
+              width = new_width; elements0 =
+              (firstn (N.to_nat (N.mul new_height new_row_width)) els) })
+
+(** val nz : n -> bool **)
+
+let nz x =
+  negb (N.eqb x N0)
+
+(** val b2n0 : bool -> n **)
+
+let b2n0 = function
+| true -> Npos XH
+| false -> N0
+
+(** val dm_step : bool -> dmat -> op -> (dmat * ans option) outcome **)
+
+let dm_step fixed m = function
+| OSet (i, j, v) -> obind (dm_set m i j v) (fun m' -> Ok (m', None))
+| OGet (i, j) -> obind (dm_get m i j) (fun v -> Ok (m, (Some (ABit (nz v)))))
+| OSwapRows (i, j) -> obind (dm_swap_rows m i j) (fun m' -> Ok (m', None))
+| OSwapCols (i, j, hint) ->
+  obind (dm_swap_columns m i j hint) (fun m' -> Ok (m', None))
+| OAddRows (d, s, c) ->
+  obind (dm_add_assign_rows m d s c) (fun m' -> Ok (m', None))
+| OResize (nh, nw) -> obind (dm_resize m nh nw) (fun m' -> Ok (m', None))
+| OCountOnes (row, s, e) ->
+  obind (dm_count_ones fixed m row s e) (fun v -> Ok (m, (Some (ANat
+    (N.to_nat v)))))
+| ORowIter (row, s, e) ->
+  obind (dm_get_row_iter fixed m row s e) (fun l -> Ok (m, (Some (ARow
+    (map (fun cv -> ((N.to_nat (fst cv)), (nz (snd cv)))) l)))))
+| OOnesInCol (col, s, e) ->
+  obind (dm_get_ones_in_column m col s e) (fun l -> Ok (m, (Some (ANats
+    (map N.to_nat l)))))
+| OSubRow (row, s) ->
+  obind (dm_get_sub_row_as_octets m row s) (fun p ->
+    let (ws, n0) = p in
+    obind (bov_to_octet_vec ws n0) (fun bits -> Ok (m, (Some (ABits
+      (map nz bits))))))
+| ONonZeroCols (row, s) ->
+  obind (dm_query_non_zero_columns m row s) (fun l -> Ok (m, (Some (ANats
+    (map N.to_nat l)))))
+| OFreeze col -> Ok ((dm_hint_column_dense_and_frozen m col), None)
+| OEnableAccel -> Ok ((dm_enable_column_access_acceleration m), None)
+| ODisableAccel -> Ok ((dm_disable_column_access_acceleration m), None)
+
+(** val decode_op : n list -> op option **)
+
+let decode_op = function
+| [] -> None
+| n0 :: l0 ->
+  (match n0 with
+   | N0 -> None
+   | Npos p ->
+     (match p with
+      | XI p0 ->
+        (match p0 with
+         | XI p1 ->
+           (match p1 with
+            | XI _ -> None
+            | XO p2 ->
+              (match p2 with
+               | XH ->
+                 (match l0 with
+                  | [] -> None
+                  | row :: l1 ->
+                    (match l1 with
+                     | [] -> None
+                     | s :: l2 ->
+                       (match l2 with
+                        | [] -> Some (ONonZeroCols (row, s))
+                        | _ :: _ -> None)))
+               | _ -> None)
+            | XH ->
+              (match l0 with
+               | [] -> None
+               | row :: l1 ->
+                 (match l1 with
+                  | [] -> None
+                  | s :: l2 ->
+                    (match l2 with
+                     | [] -> None
+                     | e :: l3 ->
+                       (match l3 with
+                        | [] -> Some (OCountOnes (row, s, e))
+                        | _ :: _ -> None)))))
+         | XO p1 ->
+           (match p1 with
+            | XI p2 ->
+              (match p2 with
+               | XH ->
+                 (match l0 with
+                  | [] -> Some OEnableAccel
+                  | _ :: _ -> None)
+               | _ -> None)
+            | XO p2 ->
+              (match p2 with
+               | XH ->
+                 (match l0 with
+                  | [] -> None
+                  | col :: l1 ->
+                    (match l1 with
+                     | [] -> None
+                     | s :: l2 ->
+                       (match l2 with
+                        | [] -> None
+                        | e :: l3 ->
+                          (match l3 with
+                           | [] -> Some (OOnesInCol (col, s, e))
+                           | _ :: _ -> None))))
+               | _ -> None)
+            | XH ->
+              (match l0 with
+               | [] -> None
+               | d :: l1 ->
+                 (match l1 with
+                  | [] -> None
+                  | s :: l2 ->
+                    (match l2 with
+                     | [] -> None
+                     | c :: l3 ->
+                       (match l3 with
+                        | [] -> Some (OAddRows (d, s, c))
+                        | _ :: _ -> None)))))
+         | XH ->
+           (match l0 with
+            | [] -> None
+            | i :: l1 ->
+              (match l1 with
+               | [] -> None
+               | j :: l2 ->
+                 (match l2 with
+                  | [] -> Some (OSwapRows (i, j))
+                  | _ :: _ -> None))))
+      | XO p0 ->
+        (match p0 with
+         | XI p1 ->
+           (match p1 with
+            | XI p2 ->
+              (match p2 with
+               | XH ->
+                 (match l0 with
+                  | [] -> Some ODisableAccel
+                  | _ :: _ -> None)
+               | _ -> None)
+            | XO p2 ->
+              (match p2 with
+               | XH ->
+                 (match l0 with
+                  | [] -> None
+                  | row :: l1 ->
+                    (match l1 with
+                     | [] -> None
+                     | s :: l2 ->
+                       (match l2 with
+                        | [] -> Some (OSubRow (row, s))
+                        | _ :: _ -> None)))
+               | _ -> None)
+            | XH ->
+              (match l0 with
+               | [] -> None
+               | nh :: l1 ->
+                 (match l1 with
+                  | [] -> None
+                  | nw :: l2 ->
+                    (match l2 with
+                     | [] -> Some (OResize (nh, nw))
+                     | _ :: _ -> None))))
+         | XO p1 ->
+           (match p1 with
+            | XI p2 ->
+              (match p2 with
+               | XH ->
+                 (match l0 with
+                  | [] -> None
+                  | col :: l1 ->
+                    (match l1 with
+                     | [] -> Some (OFreeze col)
+                     | _ :: _ -> None))
+               | _ -> None)
+            | XO p2 ->
+              (match p2 with
+               | XH ->
+                 (match l0 with
+                  | [] -> None
+                  | row :: l1 ->
+                    (match l1 with
+                     | [] -> None
+                     | s :: l2 ->
+                       (match l2 with
+                        | [] -> None
+                        | e :: l3 ->
+                          (match l3 with
+                           | [] -> Some (ORowIter (row, s, e))
+                           | _ :: _ -> None))))
+               | _ -> None)
+            | XH ->
+              (match l0 with
+               | [] -> None
+               | i :: l1 ->
+                 (match l1 with
+                  | [] -> None
+                  | j :: l2 ->
+                    (match l2 with
+                     | [] -> None
+                     | hint :: l3 ->
+                       (match l3 with
+                        | [] -> Some (OSwapCols (i, j, hint))
+                        | _ :: _ -> None)))))
+         | XH ->
+           (match l0 with
+            | [] -> None
+            | i :: l1 ->
+              (match l1 with
+               | [] -> None
+               | j :: l2 ->
+                 (match l2 with
+                  | [] -> Some (OGet (i, j))
+                  | _ :: _ -> None))))
+      | XH ->
+        (match l0 with
+         | [] -> None
+         | i :: l1 ->
+           (match l1 with
+            | [] -> None
+            | j :: l2 ->
+              (match l2 with
+               | [] -> None
+               | v :: l3 ->
+                 (match l3 with
+                  | [] -> Some (OSet (i, j, v))
+                  | _ :: _ -> None))))))
+
+(** val enc_ans : ans option -> n list **)
+
+let enc_ans = function
+| Some a0 ->
+  (match a0 with
+   | ABit b -> (Npos XH) :: ((b2n0 b) :: [])
+   | ANat n0 -> (Npos XH) :: ((N.of_nat n0) :: [])
+   | ARow l -> (Npos XH) :: (map (fun cv -> N.of_nat (fst cv)) (filter snd l))
+   | ANats l -> (Npos XH) :: (map N.of_nat l)
+   | ABits l -> (Npos XH) :: (map b2n0 l))
+| None -> (Npos XH) :: []
+
+(** val dm_run_from : bool -> dmat -> n list list -> n list list **)
+
+let rec dm_run_from fixed m = function
+| [] -> []
+| l :: t0 ->
+  (match decode_op l with
+   | Some o ->
+     (match dm_step fixed m o with
+      | Ok a0 -> let (m1, a) = a0 in (enc_ans a) :: (dm_run_from fixed m1 t0)
+      | Panic _ -> (N0 :: []) :: [])
+   | None -> ((Npos (XO XH)) :: []) :: [])
+
+(** val dm_run : bool -> n -> n -> n list list -> n list list **)
+
+let dm_run fixed h w ops =
+  dm_run_from fixed (dm_new h w) ops
+
+(** val bm_run_from : bitmat -> n list list -> n list list **)
+
+let rec bm_run_from a = function
+| [] -> []
+| l :: t0 ->
+  (match decode_op l with
+   | Some o ->
+     if adm o a
+     then let (a1, r) = bm_step a o in (enc_ans r) :: (bm_run_from a1 t0)
+     else ((Npos (XI XH)) :: []) :: []
+   | None -> ((Npos (XO XH)) :: []) :: [])
+
+(** val bm_run : n -> n -> n list list -> n list list **)
+
+let bm_run h w ops =
+  bm_run_from (bm_new (N.to_nat h) (N.to_nat w)) ops
+
+(** val split_ops : nat -> n list -> n list list **)
+
+let rec split_ops n0 l =
+  match n0 with
+  | O -> []
+  | S k ->
+    (match l with
+     | [] -> []
+     | len :: t0 ->
+       (firstn (N.to_nat len) t0) :: (split_ops k (skipn (N.to_nat len) t0)))
+
+(** val flat_rows : n list list -> n list **)
+
+let flat_rows rows =
+  flat_map (fun r -> (N.of_nat (length r)) :: r) rows
+
+(** val run_bm_dense : bool -> n list -> n list **)
+
+let run_bm_dense fixed a =
+  (Npos
+    XH) :: (flat_rows
+             (dm_run fixed (nth O a N0) (nth (S O) a N0)
+               (split_ops (N.to_nat (nth (S (S (S O))) a N0))
+                 (skipn (S (S (S (S O)))) a))))
+
+(** val run_bm_spec : n list -> n list **)
+
+let run_bm_spec a =
+  (Npos
+    XH) :: (flat_rows
+             (bm_run (nth O a N0) (nth (S O) a N0)
+               (split_ops (N.to_nat (nth (S (S (S O))) a N0))
+                 (skipn (S (S (S (S O)))) a))))
+
+(** val run_mat : n -> n list -> n list **)
+
+let run_mat f a =
+  match f with
+  | N0 -> N0 :: ((Npos (XI (XI (XO (XO (XO (XI XH))))))) :: [])
+  | Npos p ->
+    (match p with
+     | XI p0 ->
+       (match p0 with
+        | XO p1 ->
+          (match p1 with
+           | XI p2 ->
+             (match p2 with
+              | XO p3 ->
+                (match p3 with
+                 | XI p4 ->
+                   (match p4 with
+                    | XI p5 ->
+                      (match p5 with
+                       | XI p6 ->
+                         (match p6 with
+                          | XI p7 ->
+                            (match p7 with
+                             | XH -> run_bm_dense false a
+                             | _ ->
+                               N0 :: ((Npos (XI (XI (XO (XO (XO (XI
+                                 XH))))))) :: []))
+                          | _ ->
+                            N0 :: ((Npos (XI (XI (XO (XO (XO (XI
+                              XH))))))) :: []))
+                       | _ ->
+                         N0 :: ((Npos (XI (XI (XO (XO (XO (XI XH))))))) :: []))
+                    | _ ->
+                      N0 :: ((Npos (XI (XI (XO (XO (XO (XI XH))))))) :: []))
+                 | _ -> N0 :: ((Npos (XI (XI (XO (XO (XO (XI XH))))))) :: []))
+              | _ -> N0 :: ((Npos (XI (XI (XO (XO (XO (XI XH))))))) :: []))
+           | _ -> N0 :: ((Npos (XI (XI (XO (XO (XO (XI XH))))))) :: []))
+        | _ -> N0 :: ((Npos (XI (XI (XO (XO (XO (XI XH))))))) :: []))
+     | XO p0 ->
+       (match p0 with
+        | XI p1 ->
+          (match p1 with
+           | XI p2 ->
+             (match p2 with
+              | XO p3 ->
+                (match p3 with
+                 | XO p4 ->
+                   (match p4 with
+                    | XI p5 ->
+                      (match p5 with
+                       | XO p6 ->
+                         (match p6 with
+                          | XO p7 ->
+                            (match p7 with
+                             | XO p8 ->
+                               (match p8 with
+                                | XH -> run_bm_spec a
+                                | _ ->
+                                  N0 :: ((Npos (XI (XI (XO (XO (XO (XI
+                                    XH))))))) :: []))
+                             | _ ->
+                               N0 :: ((Npos (XI (XI (XO (XO (XO (XI
+                                 XH))))))) :: []))
+                          | _ ->
+                            N0 :: ((Npos (XI (XI (XO (XO (XO (XI
+                              XH))))))) :: []))
+                       | _ ->
+                         N0 :: ((Npos (XI (XI (XO (XO (XO (XI XH))))))) :: []))
+                    | _ ->
+                      N0 :: ((Npos (XI (XI (XO (XO (XO (XI XH))))))) :: []))
+                 | _ -> N0 :: ((Npos (XI (XI (XO (XO (XO (XI XH))))))) :: []))
+              | _ -> N0 :: ((Npos (XI (XI (XO (XO (XO (XI XH))))))) :: []))
+           | _ -> N0 :: ((Npos (XI (XI (XO (XO (XO (XI XH))))))) :: []))
+        | XO p1 ->
+          (match p1 with
+           | XI p2 ->
+             (match p2 with
+              | XO p3 ->
+                (match p3 with
+                 | XI p4 ->
+                   (match p4 with
+                    | XI p5 ->
+                      (match p5 with
+                       | XI p6 ->
+                         (match p6 with
+                          | XI p7 ->
+                            (match p7 with
+                             | XH -> run_bm_dense true a
+                             | _ ->
+                               N0 :: ((Npos (XI (XI (XO (XO (XO (XI
+                                 XH))))))) :: []))
+                          | _ ->
+                            N0 :: ((Npos (XI (XI (XO (XO (XO (XI
+                              XH))))))) :: []))
+                       | _ ->
+                         N0 :: ((Npos (XI (XI (XO (XO (XO (XI XH))))))) :: []))
+                    | _ ->
+                      N0 :: ((Npos (XI (XI (XO (XO (XO (XI XH))))))) :: []))
+                 | _ -> N0 :: ((Npos (XI (XI (XO (XO (XO (XI XH))))))) :: []))
+              | _ -> N0 :: ((Npos (XI (XI (XO (XO (XO (XI XH))))))) :: []))
+           | _ -> N0 :: ((Npos (XI (XI (XO (XO (XO (XI XH))))))) :: []))
+        | XH -> N0 :: ((Npos (XI (XI (XO (XO (XO (XI XH))))))) :: []))
+     | XH -> N0 :: ((Npos (XI (XI (XO (XO (XO (XI XH))))))) :: []))
+
 (** val pcode : pclass -> n **)
 
 let pcode = function
@@ -13885,9 +15484,9 @@ let run_octet f a =
         | XH -> enc1 (oct_mul (arg a O) (arg a (S O))))
      | XH -> (Npos XH) :: ((oct_add (arg a O) (arg a (S O))) :: []))
 
-(** val b2n0 : bool -> n **)
+(** val b2n1 : bool -> n **)
 
-let b2n0 = function
+let b2n1 = function
 | true -> Npos XH
 | false -> N0
 
@@ -14160,7 +15759,7 @@ let run_wire f a =
                          (match p6 with
                           | XH ->
                             (Npos
-                              XH) :: ((b2n0
+                              XH) :: ((b2n1
                                         (oti_validb (arg a O) (arg a (S O))
                                           (arg a (S (S O)))
                                           (arg a (S (S (S (S O))))))) :: [])
@@ -14295,6 +15894,20 @@ let run_codec f a =
              (match p2 with
               | XI p3 ->
                 (match p3 with
+                 | XI p4 ->
+                   (match p4 with
+                    | XI p5 ->
+                      (match p5 with
+                       | XI p6 ->
+                         (match p6 with
+                          | XH -> run_check_intermediate a
+                          | _ ->
+                            N0 :: ((Npos (XI (XI (XO (XO (XO (XI
+                              XH))))))) :: []))
+                       | _ ->
+                         N0 :: ((Npos (XI (XI (XO (XO (XO (XI XH))))))) :: []))
+                    | _ ->
+                      N0 :: ((Npos (XI (XI (XO (XO (XO (XI XH))))))) :: []))
                  | XO p4 ->
                    (match p4 with
                     | XO p5 ->
@@ -14309,7 +15922,7 @@ let run_codec f a =
                          N0 :: ((Npos (XI (XI (XO (XO (XO (XI XH))))))) :: []))
                     | _ ->
                       N0 :: ((Npos (XI (XI (XO (XO (XO (XI XH))))))) :: []))
-                 | _ -> N0 :: ((Npos (XI (XI (XO (XO (XO (XI XH))))))) :: []))
+                 | XH -> N0 :: ((Npos (XI (XI (XO (XO (XO (XI XH))))))) :: []))
               | XO p3 ->
                 (match p3 with
                  | XI p4 ->
@@ -14463,6 +16076,20 @@ let run_codec f a =
              (match p2 with
               | XI p3 ->
                 (match p3 with
+                 | XI p4 ->
+                   (match p4 with
+                    | XI p5 ->
+                      (match p5 with
+                       | XI p6 ->
+                         (match p6 with
+                          | XH -> run_cert_ok a
+                          | _ ->
+                            N0 :: ((Npos (XI (XI (XO (XO (XO (XI
+                              XH))))))) :: []))
+                       | _ ->
+                         N0 :: ((Npos (XI (XI (XO (XO (XO (XI XH))))))) :: []))
+                    | _ ->
+                      N0 :: ((Npos (XI (XI (XO (XO (XO (XI XH))))))) :: []))
                  | XO p4 ->
                    (match p4 with
                     | XO p5 ->
@@ -14477,7 +16104,7 @@ let run_codec f a =
                          N0 :: ((Npos (XI (XI (XO (XO (XO (XI XH))))))) :: []))
                     | _ ->
                       N0 :: ((Npos (XI (XI (XO (XO (XO (XI XH))))))) :: []))
-                 | _ -> N0 :: ((Npos (XI (XI (XO (XO (XO (XI XH))))))) :: []))
+                 | XH -> N0 :: ((Npos (XI (XI (XO (XO (XO (XI XH))))))) :: []))
               | XO p3 ->
                 (match p3 with
                  | XI p4 ->
@@ -14802,7 +16429,7 @@ let run_tuple f a =
                             (match p7 with
                              | XH ->
                                (Npos
-                                 XH) :: ((b2n0
+                                 XH) :: ((b2n1
                                            (db (arg a O) (arg a (S O))
                                              (arg a (S (S O))))) :: (
                                  (arg a O) :: ((t_of (arg a (S O))) :: (
@@ -15196,5 +16823,8 @@ let run f a =
                  else if N.ltb f (Npos (XO (XO (XI (XO (XI (XI (XI (XI
                            XH)))))))))
                       then run_kern f a
-                      else N0 :: ((Npos (XI (XI (XO (XO (XO (XI
-                             XH))))))) :: [])
+                      else if N.ltb f (Npos (XO (XO (XO (XI (XI (XO (XI (XO
+                                (XO XH))))))))))
+                           then run_mat f a
+                           else N0 :: ((Npos (XI (XI (XO (XO (XO (XI
+                                  XH))))))) :: [])
